@@ -47,3 +47,110 @@ PROPS["C07"] = dict(
           "expiry epoch and hash", timeout=600),
     ],
 )
+
+KANI_TB = ["Kani 0.68 / CBMC 6.11 (cadical)", "rustc MIR->goto translation of Kani"]
+
+PROPS["C16"] = dict(
+    title="Database key mapping is reversible and preserves sorted-index order",
+    functions=[
+        "radix_substate_store_interface::db_key_mapper::SpreadPrefixKeyMapper::{to_db_partition_key, "
+        "from_db_partition_key, to_db_node_key, from_db_node_key, to_db_sort_key, from_db_sort_key, "
+        "field_to/from_db_sort_key, map_to/from_db_sort_key, sorted_to/from_db_sort_key, to_hash_prefixed, "
+        "from_hash_prefixed}",
+    ],
+    bounds="node id: all 30 bytes symbolic; partition number: any u8; field key: any u8; map keys: every content "
+           "for lengths 0,1,2,4; sorted keys: every 2-byte prefix, payload lengths (0,3),(3,1),(2,2) with every "
+           "content; loops unwound to 32 (node-id comparison) / 7 with unwinding assertions",
+    outside="map/sorted key payloads longer than 4 bytes (the code path is length-generic: concat + slice at "
+            "constant offset 20/22, but longer lengths are not explored); ordering among sorted keys with equal "
+            "prefix (depends on the hash)",
+    assumptions=[
+        "radix_common::crypto::hash::hash is replaced by a stub returning an arbitrary 32-byte value on each call "
+        "(kani::stub): verdicts hold for every hash function",
+        "Vec lengths are concrete per harness (symbolic-length allocation exhausted memory under CBMC)",
+    ],
+    trusted_base=KANI_TB,
+    kani=[
+        H("c16::c16_partition_key_roundtrip", "node id + partition number: decode(encode(x)) = x, plain id is a "
+          "suffix of the db key (injective)", stubbing=True, expect_stub="nondet_hash", timeout=600),
+        H("c16::c16_field_key_roundtrip", "field key identity through SubstateKey-level entry points",
+          stubbing=True, expect_stub="nondet_hash", timeout=600),
+        H("c16::c16_map_key_roundtrip_len0", "map key len 0 round trip", stubbing=True, expect_stub="nondet_hash",
+          timeout=600),
+        H("c16::c16_map_key_roundtrip_len1", "map key len 1 round trip", stubbing=True, expect_stub="nondet_hash",
+          timeout=600),
+        H("c16::c16_map_key_roundtrip_len2", "map key len 2 round trip", stubbing=True, expect_stub="nondet_hash",
+          timeout=600, tiers=("thorough",)),
+        H("c16::c16_map_key_roundtrip_len4", "map key len 4 round trip", stubbing=True, expect_stub="nondet_hash",
+          timeout=600),
+        H("c16::c16_sorted_key_len0_len3", "sorted keys: round trip; db order of different prefixes = prefix order",
+          stubbing=True, expect_stub="nondet_hash", timeout=900),
+        H("c16::c16_sorted_key_len3_len1", "sorted keys (payload 3 vs 1)", stubbing=True,
+          expect_stub="nondet_hash", timeout=900),
+        H("c16::c16_sorted_key_len2_len2", "sorted keys (payload 2 vs 2)", stubbing=True,
+          expect_stub="nondet_hash", timeout=900, tiers=("thorough",)),
+    ],
+)
+
+PROPS["C13"] = dict(
+    title="Substate locks are exclusive for writers",
+    functions=["radix_engine::kernel::substate_locks::SubstateLockState::{no_lock, is_locked, try_lock, unlock} "
+               "(via verif shims)"],
+    bounds="one step from every state Read(n), n any usize < usize::MAX, or Write, with either request kind; plus "
+           "every sequence of 6 operations (read-lock / write-lock / unlock) from no_lock against a counter model",
+    outside="the SubstateLocks maps (locks, substate_lock_states, node_num_locked): handle lifetime and "
+            "node_is_locked are NOT decided (IndexMap/HashMap-backed state does not finish under CBMC); sequences "
+            "longer than 6 are covered only through the one-step refinement",
+    assumptions=["unlock is only called for a live handle (as SubstateLocks::unlock does: it looks the handle up "
+                 "first)", "fewer than usize::MAX simultaneous readers"],
+    trusted_base=KANI_TB,
+    kani=[
+        H("c13::c13_lock_state_step", "one-step refinement of the readers/writer automaton from an arbitrary state",
+          timeout=600),
+        H("c13::c13_lock_state_sequences", "6 symbolic operations from no_lock vs counter model; exclusion "
+          "invariant after every step", timeout=600),
+    ],
+)
+
+PROPS["C14"] = dict(
+    title="A database overlay behaves like the database with the commits applied",
+    functions=["radix_rust::iterators::OverlayingIterator::{new, next} (the merge used by "
+               "SubstateDatabaseOverlay listings)"],
+    bounds="every strictly sorted underlying sequence of <= NU entries and every strictly sorted overlay of <= NO "
+           "entries (upsert or delete) over a 6-key universe, arbitrary u8 payloads; (NU,NO) = (3,3) quick, plus "
+           "(2,4), (4,2) thorough; unwind 8 with unwinding assertions",
+    outside="SubstateDatabaseOverlay::{get_raw_substate_by_db_key, list_raw_values_from_db_key cursor handling, "
+            "merge_database_updates, commit} over BTreeMap-backed state; partition resets",
+    assumptions=["both inputs are sorted by key without duplicates (BTreeMap iteration order)"],
+    trusted_base=KANI_TB,
+    kani=[
+        H("c14::c14_overlaying_iterator_3x3", "merge listing equals reference overlay lookup in key order (3+3)",
+          timeout=2400),
+        H("c14::c14_overlaying_iterator_2x4", "merge listing equals reference (2 underlying, 4 overlay)",
+          timeout=2400, tiers=("thorough",)),
+        H("c14::c14_overlaying_iterator_4x2", "merge listing equals reference (4 underlying, 2 overlay)",
+          timeout=2400, tiers=("thorough",)),
+    ],
+)
+
+PROPS["C03"] = dict(
+    title="Every committed transaction conserves resources",
+    functions=["radix_engine_interface::blueprints::resource::LiquidFungibleResource::{new, amount, is_empty, put, "
+               "take_by_amount, take_all}", "radix_common::math::Decimal::{checked_add, checked_sub, cmp, is_zero}"],
+    bounds="every pair of non-negative 192-bit Decimal values (balance, argument): full width, no loops",
+    outside="non-fungible id sets (IndexSet), total-supply bookkeeping in the resource managers, "
+            "reconcile_resource_state_and_events, and that every engine path moves value only through these "
+            "containers: the end-to-end conservation statement is NOT decided, only its container kernel",
+    assumptions=["amounts are non-negative (callers validate with check_fungible_amount before reaching the "
+                 "container)"],
+    trusted_base=KANI_TB + ["3x64-bit limb reference arithmetic written in the harness (dec.rs)"],
+    kani=[
+        H("c03::c03_take_by_amount_conserves", "take: before = after + taken exactly, or InsufficientBalance iff "
+          "balance < request and container unchanged", timeout=900),
+        H("c03::c03_put_conserves", "put: amount is the exact sum; taking it back restores the container",
+          timeout=900),
+        H("c03::c03_put_panics_only_on_overflow", "checked_add is None exactly when the exact sum leaves I192",
+          timeout=600),
+        H("c03::c03_take_all", "take_all returns the whole balance and leaves zero; is_empty <=> zero", timeout=600),
+    ],
+)
